@@ -493,7 +493,7 @@ def run_seed(seed, ctx):
         "sim_seconds": 0.0, "violations": viols,
         "events_sha": hashlib.sha1(json.dumps([sorted(agg["keys"]), sorted(agg["shapes"])]).encode()).hexdigest(),
     }
-    if agg["sample"] is not None and seed % 16 == 0:
+    if agg["sample"] is not None and (seed % 16 == 0 or ctx.get("want_sample")):
         res["sample"] = dict(agg["sample"], seed=seed)
     return res
 
